@@ -39,7 +39,7 @@ DYNAMIC = ["now()", "today()", "uuid()", "1 + 2", "3 * 4", "7 div 2", "7 mod 2",
            "once(random())", "'a' | 'b'", "string-length('abc')", "${last-saved#src}"]
 AMBIG = ["a-b", "1-1", "x[1]", "( x )", "a - b", "2020-01-31 extra", "jr://images/x.png"]
 TYPES = ["text", "integer", "decimal", "date", "dateTime", "time", "note", "hidden", "calculate", "select_one l1", "select_multiple l1", "geopoint", "barcode", "image", "range",
-         "audio", "video", "file"]  # the other upload types: their static default (a file name) is literal content, no jr://images/ prefix
+         "audio", "video", "file", "trigger", "acknowledge", "geotrace", "rank l1"]  # the other upload types: their static default (a file name) is literal content, no jr://images/ prefix
 POSITIONS = ["top", "group", "repeat", "repeat/repeat", "group/repeat/group", "repeat/group/repeat"]
 
 
@@ -272,7 +272,7 @@ def run_shard(ctx):
             bt = qt.split(" ")[0]
             if bt == "select_one" and kls == "static":
                 d = "a"
-            if bt == "select_multiple" and kls == "static":
+            if bt in ("select_multiple", "rank") and kls == "static":
                 d = "a b"
             if bt == "range" and kls == "static":
                 d = "5"
